@@ -43,6 +43,12 @@ type Case struct {
 	Opts     []Opt  `json:"opts"`               // user options
 	Platform []Opt  `json:"platform,omitempty"` // options block of the generated platform definition
 	PlatDrv  string `json:"plat_drv,omitempty"` // generic | network
+	// Variant (ctor platform): the definition carries a variant that defines nothing of its own
+	// and the platform is built with NewPlatformVariant
+	Variant bool `json:"variant,omitempty"`
+	// PlatOnX (ctor platform): the definition carries on-open / on-close (and network-on-*) steps
+	// of its own; a user option for the same hook must win over them
+	PlatOnX bool `json:"plat_on_x,omitempty"`
 }
 
 // ---------- identity pools ----------
@@ -126,7 +132,8 @@ func setIf(cond bool, m model, k, v string) {
 }
 
 func genStr(t *rapid.T) string {
-	return rapid.SampledFrom([]string{"", "a", "admin", "p@ss w0rd", "üser", "x y"}).Draw(t, "s")
+	// (outer blanks, tabs and upper case are part of a value like any other character)
+	return rapid.SampledFrom([]string{"", "a", "admin", "p@ss w0rd", "üser", "x y", " admin", "admin ", "\tx", "Admin", " Pw d "}).Draw(t, "s")
 }
 
 func genRe(t *rapid.T) string {
